@@ -844,6 +844,11 @@ func c16(r *core.Report) {
 	// ---- C16-TEXT-OWNED: the text a marshaller returns belongs to the caller: it is not backed by a
 	// buffer taken from a pool (or any storage the next call reuses), or holding one address text while
 	// marshalling another — a message's Src and Dst, an address nested in an address — rewrites the first
+	// ---- C16-PARSE-TOTAL (shared with C17-ALPHABET / C08-LIB-CONTRACT): the identity part of an address is
+	// decoded with base64, whose Decode panics on a destination shorter than the text asks for
+	r.Rule("C16-PARSE-TOTAL", "the identity part of an address reaches base64's Decode only when it has exactly an id's encoded length (any other text is an error, not a panic)", 1)
+	ruleBase64DecodeFits(r, "C16-PARSE-TOTAL", "identity text of the wrong length is decoded: ParseAddr panics (over-long) or accepts a truncated id (short) instead of failing cleanly")
+
 	r.Rule("C16-TEXT-OWNED", "MarshalText does not return bytes backed by a pooled or package-level buffer", 6)
 	for _, t := range typesTab {
 		mf := p.Func(t.rel, t.marshal)
